@@ -498,6 +498,13 @@ def make_machine(ctx):
                     kw["dump_format"] = data.draw(st.sampled_from(FORMATS[3:]))
                 self._do({"do": "new", "what": "tp", "kw": kw})
             self._do({"do": "new", "what": "tp", "kw": data.draw(st_trunc_kw())})
+            # always in the pool: a date-only truncated point without a zone
+            # and a full point with decimal seconds (the pair whose addition
+            # works on the full operand most directly)
+            self._do({"do": "new", "what": "tp", "kw": {
+                "truncated": True, "day_of_month": data.draw(st.integers(1, 28))}})
+            self._do({"do": "new", "what": "tp", "kw": data.draw(
+                G.st_point_kw(cm, years=YEARS, forms=("hms,tt",)))})
             self._do({"do": "new", "what": "dur", "kw": data.draw(
                 G.st_exact_duration_kw(max_days=400, signs="any"))})
             self._do({"do": "new", "what": "dur", "kw": data.draw(
